@@ -38,7 +38,9 @@ func Check() *common.Check {
 			"stray temporary files after an interrupted rewrite are not a violation (the property does not mention them)",
 			"small-scope hypothesis: file sets of <=3 files, outputs of <=400 bytes",
 		},
-		CrashSafe: false,
+		// CrashSafe makes every case record itself before it runs: progress stays visible to the parent
+		// (hang detection) however slow process runs get on a loaded machine.
+		CrashSafe: true,
 		Enumerate: enumerate,
 	}
 }
@@ -124,20 +126,6 @@ func verdicts(files []file, dialect string) ([]verdict, verdict) {
 		vs = append(vs, libVerdict(f.Content, dialect))
 	}
 	return vs, overall(vs)
-}
-
-func fileSets(e *common.Enum, list []file, max int) [][]file {
-	if e.Thorough() {
-		return subsets(list, max, true)
-	}
-	// quick: canonical order, and pairs additionally in reverse order
-	out := subsets(list, max, false)
-	for _, s := range subsets(list, 2, false) {
-		if len(s) == 2 {
-			out = append(out, []file{s[1], s[0]})
-		}
-	}
-	return out
 }
 
 func setKey(files []file) string { return strings.Join(names(files), ",") }
